@@ -1880,7 +1880,7 @@ PAIR_INTS = [-2 ** 63, -2 ** 31 - 1, -2 ** 31, -65536, -65535, -40000, -32769, -
 
 
 def oracle_c11(ctx):
-    from ocommon import VInt, VIntEnum, VIntFlag
+    from ocommon import VInt, VIntEnum, VIntFlag, VIntMix
     res = Result('c11.ladder')
     g = ctx.gen
     c11_scenarios(ctx, res)
@@ -1893,7 +1893,7 @@ def oracle_c11(ctx):
                     res.violation('adjacent integers %d, %d legacy=%s' % (a, b, legacy), {'fn': 'c11_pair_case', 'args': pyrepr((a, b, legacy))}, bad[0], bad[1])
                     break
     # an IntEnum / IntFlag member or any other int subclass IS an integer: same ladder
-    for n in list(VIntEnum) + list(VIntFlag) + [VInt(x) for x in PAIR_INTS + [2 ** 63, -2 ** 63 - 1]]:
+    for n in list(VIntEnum) + list(VIntFlag) + list(VIntMix) + [VInt(x) for x in PAIR_INTS + [2 ** 63, -2 ** 63 - 1]]:
         for legacy in (False, True):
             res.case('subclass %s %s' % (pyrepr(n), legacy), tag='int subclass')
             bad = c11_case(n, legacy, 'explicit')
@@ -3205,7 +3205,9 @@ import subprocess  # noqa: E402
 import sys  # noqa: E402
 
 TZS = ['UTC', 'Pacific/Pago_Pago', 'America/New_York', 'Europe/Paris', 'Asia/Kolkata', 'Asia/Kathmandu', 'Asia/Tokyo',
-       'Pacific/Chatham', 'Pacific/Kiritimati', 'Australia/Lord_Howe', 'EST5EDT,M3.2.0,M11.1.0', 'XXX-5:45YYY,M10.1.0/2,M3.3.0/3']
+       'Pacific/Chatham', 'Pacific/Kiritimati', 'Australia/Lord_Howe', 'EST5EDT,M3.2.0,M11.1.0', 'XXX-5:45YYY,M10.1.0/2,M3.3.0/3',
+       # zones whose rules differ from what they look like today, and the leap-second ('right/') flavour of the database
+       'right/UTC', 'right/America/New_York', 'Africa/Monrovia', 'America/Danmarkshavn', 'Africa/Sao_Tome']
 
 C15_CHILD = r'''
 import sys, json, os, time, datetime, calendar
@@ -3249,9 +3251,10 @@ for secs, micro, kind, offmin in cases:
             out.append(['skip'])
             continue
     elif kind == 'struct_z':
-        v = time.strptime(time.strftime('%Y-%m-%d %H:%M:%S', time.gmtime(secs)) + ' +0530', '%Y-%m-%d %H:%M:%S %z')
+        v = time.strptime((datetime.datetime(1970, 1, 1) + datetime.timedelta(seconds=secs)).strftime('%Y-%m-%d %H:%M:%S') + ' +0530', '%Y-%m-%d %H:%M:%S %z')
     else:
-        v = time.struct_time(time.gmtime(secs))
+        # the UTC fields of the instant, by arithmetic (time.gmtime applies leap seconds under the 'right/' zones)
+        v = (datetime.datetime(1970, 1, 1) + datetime.timedelta(seconds=secs)).timetuple()
     try:
         if via_props:
             # the same value as the timestamp PROPERTY of a message: constructor (which validates), content header, wire
@@ -3292,7 +3295,8 @@ def oracle_c15(ctx):
     import calendar as _cal
     walls = [(2024, 3, 31, 2, 30), (2024, 3, 10, 2, 30), (2024, 10, 6, 2, 15), (2024, 9, 29, 2, 50), (2024, 9, 29, 3, 0), (2011, 12, 30, 12, 0),
              (1986, 1, 1, 0, 7), (2021, 3, 28, 2, 30), (2024, 3, 31, 1, 59), (2024, 3, 31, 3, 0)]
-    special = [_cal.timegm(w + (0,)) for w in walls] + [0, 1, 1800, 3599, 3600, 19800, 20700, 32400, 45900, 50399, 50400, 86399]
+    special = [_cal.timegm(w + (0,)) for w in walls] + [0, 1, 1800, 3599, 3600, 19800, 20700, 32400, 45900, 50399, 50400, 86399,
+               63000000, 157000000, 820000000, 1530000000, 1700000000]      # Monrovia 1972, Bissau 1975, Danmarkshavn 1996, Sao Tome 2018
     for s_ in special:
         for kind_ in ('naive', 'naive_sub', 'aware_sub', 'props_naive', 'props_naive_sub', 'props_aware', 'props_struct'):
             cases.append([s_, g.r.choice([0, 0, 999999]), kind_, g.r.choice([0, 1, 60, -300, 345])])
